@@ -28,6 +28,11 @@ def trimOWS (s : Str) : Str :=
 def listMembers (h : Header) (name : Str) : List Str :=
   ((Header.values h name).flatMap (fun v => splitList v false [])).map trimOWS |>.filter (!·.isEmpty)
 
+/-- the members of a field whose members are TOKENS (Connection: 1#connection-option; Vary; the argument of a
+    qualified no-cache): there is no quoted-string in such a list, it is split at every comma -/
+def tokenListMembers (h : Header) (name : Str) : List Str :=
+  ((Header.values h name).flatMap (fun v => splitOnComma v [])).map trimOWS |>.filter (!·.isEmpty)
+
 /-- quoted-string → its content (quoted-pairs resolved); a token is returned as is -/
 def unquote : Str → Str
   | '"' :: r =>
@@ -402,7 +407,7 @@ def qPlainCanon (v : Option Str) : Option Str :=
     the fields its Connection names and Content-Length replaces the stored field; a stored Age is
     dropped (the age restarts from the 304) -/
 def merge304 (canon : Str → Str) (stored new : Header) : Header :=
-  let named := (listMembers new sConnection).map canon   -- every Connection field line (RFC 9110 §5.3)
+  let named := (tokenListMembers new sConnection).map canon   -- every Connection field line (RFC 9110 §5.3)
   let skip := sContentLength :: (hopByHopFixed ++ named)
   let base := Header.del stored sAge
   (Header.names new).foldl (fun acc n =>
